@@ -324,7 +324,7 @@ Print Assumptions C05_accepted_request_commitments.
    Non-vacuity: Compose_provider.ex_round_trip (and ex_round_trip_rejected for the refusing case). *)
 From MevVerif Require model.ProviderSvc model.PreconfProvider proofs.Compose_provider.
 
-(* For a request accepted by the bidder API rules (numbers Go int64 values) and a provider that answers before the
+(* For a request accepted by the bidder API rules (numbers Go int64 values, as every decoded bidderapi.v1.Bid has: Rules_proofs.int64_of_wire_range) and a provider that answers before the
    bidder's deadline: SendBid surfaces for this provider exactly the commitment the provider wrote -- once,
    embedding exactly the bid sent, with ProviderAddress = the address of the provider's key; its digest is the
    EIP-712 PreConfCommitment hash over the request's values, the EIP-712 bid digest and the bidder's bid
